@@ -30,6 +30,11 @@ def replay_luhn(digits, what, pos=None, x=None, swap=None, xbase=48):
     if what == 'valid':
         return not accepted(good), '%s %s' % (good, 'validates' if accepted(good) else 'does not validate'), 'C15/valid'
     accepted(good)          # the valid number first, as the symbolic run does
+    if pos is None or (what == 'subst' and x is None) or (what == 'transp' and swap is None):
+        # a witness concretised before the position was chosen: the checks that need no position
+        if card.calculate_check_digit(digits) != _luhn(only):
+            return True, 'check digit of %s is %r, Luhn gives %r' % (digits, card.calculate_check_digit(digits), _luhn(only)), 'C15/digit'
+        return not accepted(good), '%s %s' % (good, 'validates' if accepted(good) else 'does not validate'), 'C15/valid'
     cells = list(good)
     if what == 'subst':
         cells[pos] = chr(xbase + x)
